@@ -95,6 +95,21 @@ CORPUS = [
       "    rho[CONSTRAINT.LOWER.value] = 0.0\n    rho[CONSTRAINT.UPPER.value] = 0.5\n\n    origin = {\n        \"id\": f\"{birth_death_id}.origin\",\n        \"type\": \"TransformedParameter\",\n        \"transform\": \"torch.distributions.AffineTransform\",\n        \"x\": {\n            \"id\": f\"{birth_death_id}.origin.unshifted\",\n            \"type\": \"Parameter\",\n            \"tensor\": [1.0],\n            CONSTRAINT.LOWER.value: 0.0,\n        },\n        \"parameters\": {\n            \"loc\": f\"{tree_id}.root_height\",\n            \"scale\": 1.0,\n        },\n    }\n\n    bd = {",
       expect=[('C19.U', 'evolution.create_constant_birth_death::rho::bounded-constraint-is-unit-interval-or-fixed')]),
     T('c19-benign-advi-exp-helper-torch-log', AD, "        'tensor': torch.tensor(json_object['tensor']).log().tolist(),", "        'tensor': torch.log(torch.tensor(json_object['tensor'])).tolist(),", benign=True),
+    # --- V / U: leftover loop variable, priority of the fixed-parameter test, root of the unconstraining pass -----------
+    T('c19-shape-prior-on-leftover-loop-variable', EV, '            for tag in ("12", "3"):\n                joint_list.append(\n                    Distribution.json_factory(\n                        f"{sitemodel_id}.{tag}.shape.prior",',
+      '            for part in ("12", "3"):\n                joint_list.append(\n                    Distribution.json_factory(\n                        f"{sitemodel_id}.{part}.shape.prior",', expect=[('C19.V', 'create_evolution_priors::tag')]),
+    T('c19-simplex-branch-before-the-bounds-test', UT, "            if (\n                CONSTRAINT.LOWER.value in json_object\n                and CONSTRAINT.UPPER.value in json_object\n            ):\n                if (",
+      "            if json_object.get(CONSTRAINT.SIMPLEX.value, False) and 'never' not in json_object:\n                parameters.append(json_object['id'])\n                parameters_unres.append(json_object)\n            elif (\n                CONSTRAINT.LOWER.value in json_object\n                and CONSTRAINT.UPPER.value in json_object\n            ):\n                if (",
+      expect=[('C19.U', 'make_unconstrained::fixed-parameters-stay-fixed::branch-')]),
+    T('c19-benign-guarded-branch-before-the-bounds-test', UT, "            if (\n                CONSTRAINT.LOWER.value in json_object\n                and CONSTRAINT.UPPER.value in json_object\n            ):\n                if (",
+      "            if json_object.get('never', False) and CONSTRAINT.LOWER.value not in json_object:\n                parameters.append(json_object['id'])\n                parameters_unres.append(json_object)\n            elif (\n                CONSTRAINT.LOWER.value in json_object\n                and CONSTRAINT.UPPER.value in json_object\n            ):\n                if (",
+      benign=True),
+    T('c19-advi-unconstrains-the-joint-only', AD, "    var_dic, var_parameters = create_variational_model('variational', json_list, arg)", "    var_dic, var_parameters = create_variational_model('variational', joint_dic, arg)",
+      expect=[('C19.U', 'advi.build_advi::constraints-removed-over-the-whole-configuration')]),
+    T('c19-hmc-unconstrains-the-joint-only', HM, "    parameters_unres, parameters = make_unconstrained(json_list)", "    parameters_unres, parameters = make_unconstrained(joint_dic)",
+      expect=[('C19.U', 'hmc.build_hmc::constraints-removed-over-the-whole-configuration')]),
+    T('c19-time-tree-prior-without-clock-accepted', EV, "    if arg.clock is None and (\n        arg.coalescent is not None or arg.birth_death is not None\n    ):", "    if False and (\n        arg.coalescent is not None or arg.birth_death is not None\n    ):",
+      expect=[('C19.R', 'TransformedParameter.parameters.loc::tree.root_height@create_constant_birth_death')]),
 ]
 for m in CORPUS:
     if m.id == 'c19-transform-string-typo':
